@@ -104,6 +104,38 @@ theorem C02_dedup (s : St) (p q : Path) (d : Digest) (m : Method) (o : Obj) (he 
   have ha : addrOf q d = addrOf p d := by simp [addrOf, he]
   exact ⟨ha, carryOne_keep s q (addrOf q d) m _ _ h⟩
 
+/-- **C02_force_on_hard_link_keeps_object**: `carry-in --force` / `track --force` on a path that is a HARD link of
+    the cached copy itself: the code unlinks the cached copy and renames the link onto its address — the same inode
+    returns, so the object keeps its bytes (objects are immutable also under `--force`), every other hard link of it
+    stays a link of the object, and only the path itself is re-materialised. -/
+theorem C02_force_on_hard_link_keeps_object (s : St) (p q : Path) (a : Addr) (m : Method) (h : s.hardLinkOf p a = true)
+    (hq : q ≠ p) : (s.carryOne p a m true).1.cache = s.cache ∧ (s.carryOne p a m true).1.ws q = s.ws q := by
+  have hl : s.linksTo p a = false := by
+    unfold St.hardLinkOf at h
+    unfold St.linksTo
+    cases hw : s.ws p with
+    | none => simp
+    | some en =>
+      cases en with
+      | file b w st l => simp
+      | sym a' => simp [hw] at h
+  unfold St.carryOne
+  simp only [hl, h, Bool.false_eq_true, if_false, Bool.true_and, if_true]
+  refine ⟨by rw [recheckFromCache_cache]; rfl, ?_⟩
+  unfold St.recheckFromCache
+  simp only [St.readThrough, St.setWs, upd, if_true]
+  repeat' split
+  all_goals simp [St.setWs, St.tick, upd, hq]
+
+/-- non-vacuity: two hard links of one object; `carry-in --force` on one of them leaves the other a link -/
+theorem C02_force_on_hard_link_witness :
+    let s0 := (St.init.userWrite ⟨0, 1⟩ [104]).userWrite ⟨1, 1⟩ [104]
+    let s1 := (s0.track {} { method := some .hardlink } [⟨0, 1⟩, ⟨1, 1⟩]).1
+    let s2 := (s1.carryIn {} none true [⟨0, 1⟩]).1
+    s1.hardLinkOf ⟨0, 1⟩ ⟨⟨0, [104]⟩, 1⟩ = true ∧ s2.ws ⟨1, 1⟩ = s1.ws ⟨1, 1⟩ ∧ s2.ws ⟨0, 1⟩ = s1.ws ⟨0, 1⟩ ∧
+    s2.cache ⟨⟨0, [104]⟩, 1⟩ = s1.cache ⟨⟨0, [104]⟩, 1⟩ := by
+  decide
+
 /-- the address is injective in (algorithm, hashed bytes, extension) -/
 theorem C02_addr_injective (p q : Path) (d d' : Digest) :
     addrOf p d = addrOf q d' ↔ d = d' ∧ ext p = ext q := by
@@ -191,3 +223,7 @@ open Repo in
 #print axioms C02_addr_path_injective
 open Repo in
 #print axioms C02_addr_component_lengths
+open Repo in
+#print axioms C02_force_on_hard_link_keeps_object
+open Repo in
+#print axioms C02_force_on_hard_link_witness
